@@ -301,10 +301,14 @@ func main() {
 			die(2, "usage: verif replay <program.json>")
 		}
 		race := false
+		progProp := "?"
 		if b, err := os.ReadFile(os.Args[2]); err == nil {
 			var p struct{ Property string }
 			json.Unmarshal(b, &p)
 			race = loadProps()[p.Property].Race
+			if p.Property != "" {
+				progProp = p.Property
+			}
 		}
 		bin := build(race)
 		abs, _ := filepath.Abs(os.Args[2])
@@ -312,7 +316,7 @@ func main() {
 		if res == nil {
 			fmt.Println(tailLines(wo.stderr, 40))
 			if wo.crashed {
-				fmt.Printf("VIOLATION property=? replay=%s (process died during replay)\n", abs)
+				fmt.Printf("VIOLATION property=%s replay=%s (process died during replay)\n", progProp, abs)
 				os.Exit(1)
 			}
 			die(2, "replay produced no result")
